@@ -52,6 +52,10 @@ def value(src, p):
     vt = src.get("vtype", "int")
     if vt == "float":
         return n / 8.0
+    if vt == "bigint":                 # odd integers beyond 2**53: not representable as floats
+        return 2 ** 53 + 1 + 2 * abs(n)
+    if vt == "bigfloat":               # the floats those integers round to: equal to them AS FLOATS, different values
+        return float(2 ** 53 + 1 + 2 * abs(n))
     if vt == "str":
         return f"v{n}"
     if vt == "tuple":
@@ -81,6 +85,11 @@ def same(got, exp):
         return type(got) is type(exp) and len(got) == len(exp) and all(same(g, e) for g, e in zip(got, exp))
     if isinstance(exp, str):
         return isinstance(got, str) and got == exp
+    if isinstance(exp, (int, float)) and not isinstance(exp, bool) and abs(exp) > 2 ** 52:
+        # huge numbers: an integer and the float it rounds to compare equal in numpy - compare kind and exact value
+        if isinstance(exp, int):
+            return isinstance(got, (int, np.integer)) and not isinstance(got, (bool, np.bool_)) and int(got) == exp
+        return isinstance(got, (float, np.floating)) and float(got) == exp
     if isinstance(got, (str, bytes)) or got is None:
         return False
     try:
@@ -193,7 +202,7 @@ def run_case(case):
                 if src.get("vtype") == "str":
                     src = dict(src, vtype="int")
                     exp = [value(src, p) for p in cells]
-                source = np.array(exp, dtype=np.float64 if src.get("vtype") == "float" else np.int64)
+                source = np.array(exp, dtype=np.float64 if src.get("vtype") in ("float", "bigfloat") else np.int64)
                 keep = source
             elif kind == "const":
                 c = value(src, (0, 0, 0))
@@ -298,7 +307,7 @@ def strategy(tier):
     src = st.fixed_dictionaries({
         "kind": st.sampled_from(["callable", "callable", "list", "array", "const", "lookup", "lookup"]),
         "mult": st.sampled_from([1, 1, 3, -2, 7]), "off": st.integers(-50, 50),
-        "vtype": st.sampled_from(["int", "int", "float", "str", "tuple", "list2", "cells", "mixed", "dict", "set", "bytes", "nonebool"]),
+        "vtype": st.sampled_from(["int", "int", "float", "str", "tuple", "list2", "cells", "mixed", "dict", "set", "bytes", "nonebool", "bigint", "bigfloat"]),
         "lowdim": st.booleans(), "numpy": st.booleans(), "derive": st.sampled_from([False, False, True]), "functor": st.sampled_from(["function", "function", "object", "const_sub", "lookup_sub"]),
         "other": st.integers(0, 3), "drop_at": st.sampled_from([None, None, None, None, 0, 1, 2, 5, -1])})
     name = st.integers(0, 3)
@@ -318,7 +327,15 @@ def strategy(tier):
         sized_lists(wone_of(st.fixed_dictionaries({"op": st.just("add"), "name": st.integers(0, 79), "src": cheap}),
                             st.fixed_dictionaries({"op": st.just("remove"), "name": st.integers(0, 79)})), 1, 6)))
     small = _small(shape, op)
-    return wone_of(*([small] * 14 + [many]))
+    # a layer that is regenerated: the same name, a source of the same kind whose values are "almost the same"
+    pair = st.sampled_from([("bigint", "bigfloat"), ("bigfloat", "bigint"), ("int", "float"), ("float", "int"), ("int", "str")])
+    refresh = st.builds(lambda s_, kind_, vt, m_, o_: dict(s_, ops=[
+        {"op": "add", "name": 0, "src": {"kind": kind_, "mult": m_, "off": o_, "vtype": vt[0], "lowdim": False, "numpy": True}},
+        {"op": "add", "name": 1, "src": {"kind": "const", "mult": 0, "off": 7, "vtype": "int", "lowdim": False, "numpy": False}},
+        {"op": "add", "name": 0, "again": True, "src": {"kind": kind_, "mult": m_ * (8 if vt == ("int", "float") else 1), "off": o_ * (8 if vt == ("int", "float") else 1),
+                                                       "vtype": vt[1], "lowdim": False, "numpy": True}}]),
+        small_shape, st.sampled_from(["array", "array", "list", "callable"]), pair, st.sampled_from([1, 3]), st.integers(0, 20))
+    return wone_of(*([small] * 13 + [refresh, many]))
 
 
 def _small(shape, op):
